@@ -63,7 +63,7 @@ def Intact (t0 : Tbl) (c : Conn) : Prop := c.working.orig = some t0 ∧ c.commit
 theorem exec_err_dbs {ct : ConvTable} {c : Conn} {s : Stmt} {e : Err} (h : (c.exec ct s).2 = some e) :
     (c.exec ct s).1.working = c.working ∧ (c.exec ct s).1.committed = c.committed := by
   unfold Conn.exec at h ⊢
-  cases hd : s.isDml <;> simp only [hd, Bool.false_eq_true, if_false, if_true] at h ⊢
+  cases hd : (s.isDml && c.implicitBegin) <;> simp only [hd, Bool.false_eq_true, if_false, if_true] at h ⊢
   · split at h
     · simp_all
     · simp at h
@@ -74,7 +74,7 @@ theorem exec_err_dbs {ct : ConvTable} {c : Conn} {s : Stmt} {e : Err} (h : (c.ex
 theorem exec_safe_intact {ct : ConvTable} {t0 : Tbl} {c : Conn} {s : Stmt} (hs : safe s = true)
     (hi : Intact t0 c) : Intact t0 (c.exec ct s).1 := by
   unfold Conn.exec
-  cases hd : s.isDml <;> simp only [Bool.false_eq_true, if_false, if_true]
+  cases hd : (s.isDml && c.implicitBegin) <;> simp only [Bool.false_eq_true, if_false, if_true]
   · split
     · exact hi
     · rename_i db hok
@@ -179,18 +179,22 @@ theorem insertRows_ok (s : Schema) : ∀ (l acc r : List Row), insertRows s acc 
 
 /-! ## what a successful step did -/
 
+/-- the statement opens the driver's implicit transaction -/
+def opens (c : Conn) (s : Stmt) : Bool := s.isDml && c.implicitBegin
+
 theorem step_none {ct : ConvTable} {fault : Option Nat} {r : Run} {s : Stmt} (h : (step ct fault r s).2 = none) :
     ∃ db, applyStmt ct r.conn.working s = .ok db ∧
       (step ct fault r s).1.conn.working = db ∧
-      (step ct fault r s).1.conn.inTxn = (s.isDml || r.conn.inTxn) ∧
-      (step ct fault r s).1.conn.committed = (if (s.isDml || r.conn.inTxn) then r.conn.committed else db) := by
+      (step ct fault r s).1.conn.inTxn = (opens r.conn s || r.conn.inTxn) ∧
+      (step ct fault r s).1.conn.committed = (if (opens r.conn s || r.conn.inTxn) then r.conn.committed else db) := by
   unfold step at h ⊢
   split at h
   · simp at h
   · rename_i hf
     simp only [hf] at ⊢
     simp only [Conn.exec] at h ⊢
-    cases hd : s.isDml <;> simp only [hd, Bool.false_eq_true, if_false, if_true, Bool.false_or, Bool.true_or] at h ⊢
+    unfold opens
+    cases hd : (s.isDml && r.conn.implicitBegin) <;> simp only [hd, Bool.false_eq_true, if_false, if_true, Bool.false_or, Bool.true_or] at h ⊢
     · split at h
       · simp at h
       · rename_i db hok
@@ -202,6 +206,22 @@ theorem step_none {ct : ConvTable} {fault : Option Nat} {r : Run} {s : Stmt} (h 
         refine ⟨db, hok, ?_⟩
         simp
 
+theorem exec_implicitBegin (ct : ConvTable) (c : Conn) (s : Stmt) : (c.exec ct s).1.implicitBegin = c.implicitBegin := by
+  unfold Conn.exec
+  cases hd : (s.isDml && c.implicitBegin) <;> simp only [Bool.false_eq_true, if_false, if_true]
+  · split
+    · rfl
+    · cases c.inTxn <;> simp
+  · split
+    · rfl
+    · simp
+
+theorem step_implicitBegin (ct : ConvTable) (fault : Option Nat) (r : Run) (s : Stmt) :
+    (step ct fault r s).1.conn.implicitBegin = r.conn.implicitBegin := by
+  unfold step; split
+  · rfl
+  · exact exec_implicitBegin ct r.conn s
+
 /-- the temporary table exists and is empty (after `create_table`) -/
 def TmpEmpty (c : Conn) : Prop := ∃ t, c.working.tmp = some t ∧ t.rows = []
 
@@ -212,7 +232,7 @@ theorem step_err_conn {ct : ConvTable} {fault : Option Nat} {r : Run} {s : Stmt}
   · rfl
   · rename_i hf
     simp only [hf] at h
-    simp only [Conn.exec, hd, Bool.false_eq_true, if_false] at h ⊢
+    simp only [Conn.exec, hd, Bool.false_and, Bool.false_eq_true, if_false] at h ⊢
     split at h
     · rfl
     · simp at h
